@@ -5,8 +5,10 @@
 set -u
 WT=$1; PROP=$2; ID=$3; PATCH=${4:-}; DEMO=${5:-DEMO.py}; NOTE=${6:-NOTE.md}
 cd /verif
+if [ -n "$PATCH" ]; then cp $WT/$PATCH /tmp/try_mutant_patch.diff; else git -C $WT diff -- dsdobjects > /tmp/try_mutant_patch.diff; fi
+if [ ! -s /tmp/try_mutant_patch.diff ]; then echo "EMPTY PATCH (nothing stored)"; exit 3; fi
 mkdir -p seeded/$ID
-if [ -n "$PATCH" ]; then cp $WT/$PATCH seeded/$ID/patch.diff; else git -C $WT diff -- dsdobjects > seeded/$ID/patch.diff; fi
+cp /tmp/try_mutant_patch.diff seeded/$ID/patch.diff
 cp $WT/$DEMO seeded/$ID/demo.py 2>/dev/null
 cp $WT/$NOTE seeded/$ID/note.md 2>/dev/null
 if [ ! -s seeded/$ID/patch.diff ]; then echo "EMPTY PATCH"; exit 3; fi
